@@ -9,6 +9,7 @@ pub mod tv;
 pub mod acc;
 pub mod ivec;
 pub mod mt;
+pub mod conv_gen;
 pub mod swz_gen;
 
 use serde_json::{json, Value};
